@@ -13,6 +13,14 @@ TEXT = {
         level="Reconfiguration operations (dt, duration, inclusive, reconstrain add/edit/remove) issued from every reachable ring state (any pointer, any fill level, initialised or lazy storage) interleaved with the C01 operations; size formula, tail preservation, zero fill and constraint bookkeeping checked after every operation; a second sub-world drives ShapedTensor constraint bookkeeping (strict/non-strict, live, ignored storage).",
         ref="DESIGN.md 5.3", note="Edits of observation-dimension constraints that would resize the observation are outside the statement and skipped; strict constraints follow the documented minimum-dimensionality rule.",
         technique=SIM + ", resize-from-any-state faults"),
+    "C16": dict(
+        level="Fault sequences over the hook life cycle: seeded histories of create/register/double-register/deregister/re-register, enable-flag and train/eval switches, module calls, manual calls (force, ignore_mode) and the death of the hook object (last reference dropped + gc.collect()) on a real target module; after every operation the model fires(call) <=> alive & registered & enabled(mode) is compared with probe-hook call counts, pre/post position and the number of handles left on the module; the shipped Clamping / Normalization hooks are checked for their post-conditions each time the model says they ran and for leaving the attribute untouched when they must not run.",
+        ref="DESIGN.md 5.16", note="Object death is injected by dropping the harness's last reference and collecting; norms of vectors with 0 < norm < 1e-6 are not judged.",
+        technique="deterministic simulation: seeded lifecycle and object-death fault sequences vs hook state-machine model"),
+    "C19": dict(
+        level="The torch.Generator seed is the random schedule: every encode operation of a run gets its own seed behind the existing generator seam; offline, online and two online iterators interleaved over one shared generator are executed twice from the same generator state and compared; shape/dtype/slice count, silence at zero intensity and the refractory gap are checked on every emitted train.",
+        ref="DESIGN.md 5.19", note="Refractory periods are multiples of dt; frequency x refrac < 900 (documented domain < 1000).",
+        technique="deterministic simulation: seeded generator schedules and iterator interleavings, history oracles over emitted spike trains"),
 }
 NOT_APPLICABLE = [
     {"property_id": "C20", "reason": "pure functions of their arguments (interp/extrap inverses, distribution identities, ISI re-integration, Victor-Purpura metric laws): no state, clock, schedule, fault or history for a simulator to control; input generation in simulator costume would not be this technique"},
